@@ -28,7 +28,7 @@ from . import common
 from .common import Ctx, to_wire
 
 META = {
-    "rule": "frames: one case for every F in 1..200 (quick: B, dtype, modes random per F; thorough: 3 per F); chunks: every "
+    "rule": "frames: one case for every F in 1..200 (quick: B, dtype, modes random per F; thorough: 2 per F); chunks: every "
             "composition of F for F<=6 (quick) / F<=8 (thorough) plus random chunkings of F up to 200; per case the data are "
             "drawn from ladders: dt in {1e-4..1} const/varying, |gyro*dt| in {0, Taylor band <= eps, small, moderate, up to 7 rad}, "
             "|acc| in {0..1e3}, gravity in {0, 9.81007}, initial state default/shared/per-item; non-trivial = some gyro or acc "
@@ -40,10 +40,12 @@ META = {
                     "chunk_invariant / cov theorems: initial rotation and every increment Exp(w dt) are unit quaternions "
                     "(exact for |w dt| > eps and for w dt = 0; see partial)"],
     "partial": ["Taylor band 0 < |w dt| <= eps of so3 Exp: the increment is unit only up to O(theta^6) <= eps^6, so the exact-"
-                "arithmetic chunk-invariance theorem does not apply verbatim there; par_eq_seq holds without that hypothesis; "
-                "the band is covered by the 192-bit correspondence + the chunk oracle on the real code (gyro mode 'taylor')",
+                "arithmetic chunk-invariance of vel/pos (theorem chunk_invariant, hypothesis 'unit increments') does not apply "
+                "verbatim there; rot, cov and Rij are chunk-invariant without that hypothesis (chunk_invariant_rot_cov) and "
+                "par_eq_seq needs no hypothesis; the band is covered by the 192-bit correspondence + the chunk oracle on the "
+                "real code (gyro mode 'taylor')",
                 "float round-off: theorems are over the reals; agreement of the float code with the exact model is measured "
-                "at 64*eps*(frames+2)*scale"],
+                "at 64*eps*(frames+2)*scale (covariance: 8x that + 16*sqrt(eps) for the cancellation inside so3 Jr)"],
 }
 
 K_ALG = 64.0
@@ -481,13 +483,6 @@ def starts_from_model(case, D, b, model_calls):
 
 # ----------------------------------------------------------------------------- oracles on the real code
 
-def cov_defect_matcher(kf, case):
-    """recognises the reversed product order of propagate_cov (cov not chunk-invariant / not the documented recursion)"""
-    return (kf.get("property") == "C16" and "propagate_cov" in str(kf.get("site", ""))
-            and case.get("oracle") in ("chunk-cov",) and case.get("prop_cov") and not case.get("reset")
-            and (max(case.get("chunks", [0])) >= 3 or len(case.get("chunks", [])) >= 2))
-
-
 def strip(case):
     return {k: v for k, v in case.items() if not k.startswith("_")}
 
@@ -559,8 +554,7 @@ def oracle_chunk(ctx, case, D, impl_calls):
             ct = 4 * cov_tol(case, F)
             if not ce <= ct:
                 ctx.fail({**strip(case), "oracle": "chunk-cov"},
-                         f"chunk-cov: covariance after chunks {case['chunks'][:12]} differs from the one-call covariance, relative {ce:.3e} > {ct:.3e} (item {b})",
-                         known_matcher=cov_defect_matcher)
+                         f"chunk-cov: covariance after chunks {case['chunks'][:12]} differs from the one-call covariance, relative {ce:.3e} > {ct:.3e} (item {b})")
                 ok = False
                 break
     return ok
@@ -639,7 +633,8 @@ def evaluate(ctx: Ctx, cases, left=None) -> None:
             ctx.fail({**strip(case), "oracle": "raises"},
                      f"raises: forward raised {type(e).__name__} for B={case['B']} chunks={case['chunks'][:12]} rank={case['rank']}: {str(e)[:160]}")
             continue
-        check_types(ctx, case, impl)
+        if not check_types(ctx, case, impl):
+            continue       # wrong shapes / types: already a failure, nothing further can be compared
         oracle_psd(ctx, case, impl)
         oracle_chunk(ctx, case, D, impl)
         oracle_rank(ctx, case, D, impl)
@@ -653,18 +648,23 @@ def evaluate(ctx: Ctx, cases, left=None) -> None:
         probs = cmp_streams(case, D, b, impl, mc, starts_from_model(case, D, b, mc), "implementation vs model")
         if probs:
             ctx.disagree(case["stream"], strip(case), "; ".join(p for _, p in probs[:3]))
-            if any(k in ("rot", "vel", "pos") for k, _ in probs):
-                suspects.append((case, D, b, impl))
-    # a disagreement in rot/vel/pos: evaluate the property's own statement (documented recursion, 192 bits)
+            suspects.append((case, D, b, impl))
+    # a disagreement: evaluate the property's own statement (documented recursions, 192 bits) on the same case
     if suspects:
         suspects = suspects[:40]
         reps = par_driver(ctx, [model_line(c, D, b, 1, False) for c, D, b, _ in suspects])
         for rep, (case, D, b, impl) in zip(reps, suspects):
             sc = split_reply(case, parse_floats(rep))
-            probs = [p for k, p in cmp_streams(case, D, b, impl, sc, starts_from_model(case, D, b, sc), "documented recursion")
-                     if k in ("rot", "vel", "pos")]
-            if probs:
-                ctx.fail({**strip(case), "oracle": "recursion", "item": b}, "recursion: " + probs[0])
+            probs = cmp_streams(case, D, b, impl, sc, starts_from_model(case, D, b, sc), "documented recursion")
+            for kind, p in probs:
+                if kind in ("rot", "vel", "pos"):
+                    ctx.fail({**strip(case), "oracle": "recursion", "item": b}, "recursion: " + p)
+                    break
+            for kind, p in probs:
+                if kind == "cov":
+                    ctx.fail({**strip(case), "oracle": "cov-recursion", "item": b},
+                             "cov-recursion: returned covariance is not the documented C <- A C A^T + B: " + p)
+                    break
 
 
 # ----------------------------------------------------------------------------- case generation
@@ -735,13 +735,15 @@ def gen_cases(ctx: Ctx):
     rng = ctx.rng
     cases = []
     # --- frames: every F in 1..200, one call
-    reps = ctx.pick(1, 3)
+    reps = ctx.pick(1, 2)
     for F in range(1, 201):
         for _ in range(reps):
-            B = rng.choice([1, 1, 2, 3, 4]) if F <= 32 else rng.choice([1, 1, 1, 2])
-            propc = True if (F <= 40 or not ctx.quick) else rng.random() < 0.08
-            if propc and F > 40 and ctx.quick:
-                B = 1
+            if ctx.quick:
+                B = rng.choice([1, 2, 3, 4]) if F <= 12 else (rng.choice([1, 1, 2]) if F <= 40 else 1)
+                propc = True if F <= 16 else (rng.random() < 0.4 if F <= 40 else rng.random() < 0.06)
+            else:
+                B = rng.choice([1, 1, 2, 3, 4]) if F <= 64 else rng.choice([1, 1, 1, 2])
+                propc = True if F <= 64 else rng.random() < 0.35
             cases.append(base_case(rng, "frames", [F], B=B, prop_cov=propc, reset=(not propc) or rng.random() < 0.3))
     # --- chunks: all compositions for small F
     Fmax = ctx.pick(6, 8)
@@ -752,10 +754,13 @@ def gen_cases(ctx: Ctx):
             cases.append(base_case(rng, "chunks", parts, B=rng.choice([1, 1, 2, 3]),
                                    rank=rng.choice([3, 3, 3, 2, 1 if max(parts) == 1 else 3])))
     # --- chunks: random chunkings of larger streams
-    for _ in range(ctx.pick(40, 500)):
+    for _ in range(ctx.pick(32, 250)):
         c = rng.random()
-        F = rng.randint(7, 40) if c < 0.85 else (rng.randint(41, 200) if c < 0.95 else rng.choice([64, 65, 127, 128, 129, 200]))
-        cases.append(base_case(rng, "chunks", random_chunks(rng, F), B=rng.choice([1, 1, 2, 4]) if F <= 40 else 1,
+        if ctx.quick:
+            F = rng.randint(7, 24) if c < 0.8 else (rng.randint(25, 64) if c < 0.93 else rng.choice([65, 127, 128, 129, 200]))
+        else:
+            F = rng.randint(7, 40) if c < 0.7 else (rng.randint(41, 200) if c < 0.9 else rng.choice([64, 65, 127, 128, 129, 200]))
+        cases.append(base_case(rng, "chunks", random_chunks(rng, F), B=rng.choice([1, 1, 2, 4]) if F <= 24 else 1,
                                rank=rng.choice([3, 3, 3, 2])))
     # --- histories: reset=True, mixed known rotation, explicit init_state, per-call covariances, prop_cov=False
     for _ in range(ctx.pick(40, 300)):
@@ -844,6 +849,8 @@ def search(ctx: Ctx):
             impl = run_impl(case, D)
         except Exception as e:
             ctx.fail({**strip(case), "oracle": "raises"}, f"raises: forward raised {type(e).__name__}: {str(e)[:160]}")
+            continue
+        if not check_types(ctx, case, impl):
             continue
         oracle_psd(ctx, case, impl)
         oracle_chunk(ctx, case, D, impl)
